@@ -342,6 +342,22 @@ func (c *Ctx) classifyErr(p *errProducer) errVerdict {
 					dominated = true
 				}
 			}
+			// `if errors.Is(err, io.EOF) { return nil }` written before the nil test:
+			// the end-of-stream sentinel of a line reader is the one error that means success
+			if !dominated {
+				dominated = guardedBy(ret.Block(), func(cond ssa.Value, truth bool) bool {
+					if !truth {
+						return false
+					}
+					if call, ok := cond.(*ssa.Call); ok && calleeQ(&call.Call) == "errors.Is" && len(call.Call.Args) == 2 {
+						return vals[call.Call.Args[0]] && c.isGlobal(call.Call.Args[1], "io", "EOF")
+					}
+					if cmp, ok := isCmp(cond, token.EQL); ok {
+						return (vals[cmp.X] && c.isGlobal(cmp.Y, "io", "EOF")) || (vals[cmp.Y] && c.isGlobal(cmp.X, "io", "EOF"))
+					}
+					return false
+				})
+			}
 			if !dominated {
 				problems = append(problems, "a success return is reachable after the operation without passing the test of its error")
 				probPos = ret.Pos()
